@@ -592,10 +592,7 @@ func ruleInputAmountBound(c *Ctx, r *Report, rule string) {
 		sc := &Scenario{Paths: map[string]AVal{"fat2.TypedAddressAmountTuple.Amount": {K: AConst, C: v}}, Calls: map[string]AVal{"ValidData": nilVal, "ValidExtIDs": nilVal}, MaxDepth: 0}
 		st := newSCCP(c, sc).run(tbv, nil, 0)
 		r.Scen++
-		le := loopOver(st, "fat2.TransactionBatch.Transactions", 1)
-		if !le.Found {
-			le = loopOver(st, "fat2.TransactionBatch.Transactions", 1)
-		}
+		le := loopOverFam(c, sc, tbv, st, "fat2.TransactionBatch.Transactions", 1)
 		got := le.String()
 		want := "next"
 		if !cs.ok {
